@@ -15,6 +15,8 @@ type Violation struct {
 	Prop string `json:"prop"`
 	Sig  string `json:"sig"` // kind|where|trigger - matched exactly against known_findings.json
 	Msg  string `json:"msg"`
+	// Replay (optional): what `mossmc replay` needs to re-execute the violating case (engine-specific).
+	Replay map[string]any `json:"replay,omitempty"`
 }
 
 // G1Spec describes one explicit-state search over step sequences (engine G1).
